@@ -39,8 +39,6 @@ NOT_TRANSLATED = {
     "arr_unique / arr_union / arr_intersect": "np.sort / np.concatenate / boolean-mask indexing are outside the py2coq subset: they are opaque function "
                                               "parameters of the translated kernels (the theorems hold for every function returning a long enough buffer / "
                                               "of the model's length); the real helpers are compared with the model's merges on every run (verdict_index)",
-    "sparse_russellrao": "np.all(ind1 == ind2) (array comparison) outside the py2coq subset",
-    "sparse_ll_dirichlet": "no closed model; `for d in data` and log_beta's data-dependent range outside the py2coq subset",
 }
 
 
@@ -423,7 +421,8 @@ def run(ctx):
         if k not in D.named_distances:
             ctx.broken.append("sparse registry key %r has no dense counterpart in named_distances" % k)
     need_n = set(need)
-    ctx.partial += ["ll_dirichlet: no closed model (log-Gamma approximations); compared sparse-vs-dense by the oracle on count data with non-empty rows only",
+    ctx.partial += ["ll_dirichlet: the translated source is linked (over R) to the model M_sparse_lld.sparse_ll_dirichlet, but `sparse = dense on the densified rows` is not proved "
+                    "for it (log-Gamma approximations); compared sparse-vs-dense by the oracle on count data with non-empty rows only",
                     "arr_union / arr_intersect are modelled as the two-way merge they compute on sorted index arrays (np.sort + adjacent filter is not modelled); "
                     "compared exactly on canonical inputs every run",
                     "theorems are over R: float32 storage of intermediate arrays (sparse_sum output, shifted data) is observed within the tolerance, not modelled",
